@@ -255,10 +255,12 @@ def eof_rules(ctx, rule):
     def stop(bb, t, st):
         if t["t"] == "call" and call_matches(t, r"request::new_request$"):
             return "request-built"
-    paths = [p for p in absint.explore(rd, 0, None, on_call=on_call, stop=stop) if p.end[0] not in ("diverge", "resume", "terminate", "unreachable")]
+    paths = [p for p in absint.explore(rd, 0, None, on_call=on_call, stop=stop, max_paths=30000) if p.end[0] not in ("diverge", "resume", "terminate", "unreachable")]
     ctx.paths += len(paths)
     if not seen:
         raise CheckerError("%s: the head reader does not obtain its bytes through Read::bytes()/Read::read (unrecognised reading style)" % rule)
+    if any(p.end[0] == "cut" for p in paths):
+        raise CheckerError("%s: with end-of-stream modelled at every read the head reader still loops (the exploration bound was hit): its reading style is not one the end-of-stream model covers" % rule)
     errs = []
     bad = []
     for p in paths:
